@@ -153,6 +153,13 @@ def base : Handler
           | .error err => some (showErr err)
           | .ok y => some ("ok " ++ showMat y)
       | _ => none
+  | "c15.dispatch", [cls, base, methods] => ans do
+      -- source fact (extracted with Python's ast): the dispatch-relevant methods the class defines itself
+      let ms := if methods == "-" then [] else methods.splitOn ","
+      match classMethods cls with
+      | none => some "fails unknown-class"
+      | some (b, want) =>
+        some (holds (b == base && want == ms) ("want=" ++ b ++ ":" ++ ",".intercalate want))
   | "c15.d2u_unweighted", ts => ans do
       let (e, _) ← parseExpr ts
       match (do (← e.eval).d2uUnweighted : Except PyErr Op) with
